@@ -282,14 +282,20 @@ def execute(line: str):
             except Exception:                               # noqa: BLE001
                 pass
             extra["values_after"] = extra["values_after"] and snapshot(vals, kw) == before
-            s = bitstring.pack(fmt, *vals, **kw)
-            extra["again"] = "ok " + wire(s)               # identical call, caches warm: must be the same bits
+            try:
+                s = bitstring.pack(fmt, *vals, **kw)           # identical call, caches warm: must be the same bits
+                extra["again"] = "ok " + wire(s)
+            except Exception as e:                              # noqa: BLE001
+                s, extra["again"] = None, "err " + err_name(e)
             extra["values_after"] = extra["values_after"] and snapshot(vals, kw) == before
-            extra["len"] = len(s)
+            b0 = unwire(first[3:])
+            extra["len"] = len(s) if s is not None else None
             extra["cls"] = type(s).__name__
             if u == "1":
-                out += " U:" + plain(lambda: s.unpack(fmt, **kw), out_vals)
-                extra["unpack_bits"] = plain(lambda: Bits(bin=s.bin).unpack(fmt, **kw) if len(s) else Bits().unpack(fmt, **kw), out_vals)
+                t = mk("BitStream", b0)
+                out += " U:" + plain(lambda: t.unpack(fmt, **kw), out_vals)
+                extra["unpack_bits"] = plain(lambda: mk("Bits", b0).unpack(fmt, **kw), out_vals)
+                extra["unpack_obj"] = plain(lambda: s.unpack(fmt, **kw), out_vals) if s is not None else "err no-object"
             # the same format given as a list of its top-level comma separated parts
             parts = split_top(fmt)
             if len(parts) > 1:
@@ -418,6 +424,8 @@ def oracle(line: str, out: str, extra: dict):
                 return f"unpack(pack(values)) gives {utail}, expected {want}"
             if extra.get("unpack_bits") != want:
                 return f"Bits(bin).unpack gives {extra.get('unpack_bits')}, expected {want}"
+            if extra.get("unpack_obj") != want:
+                return f"pack(...).unpack(fmt) gives {extra.get('unpack_obj')}, expected {want}"
         return None
     if op == "comp":
         if out != exp:
